@@ -1,10 +1,197 @@
-"""E3: Kani / CBMC harnesses."""
-import os
+"""E3: Kani / CBMC harnesses over text extracted mechanically from the repository.
+
+The harness crate build/kani/ is regenerated on every run:
+  * `fn set_fallbacks` (lib.rs), `struct SpanOpt`, `impl SpanOpt`, `struct FutureSend`, `struct Opts` (opt.rs) are copied
+    verbatim (vx-assemble extract); `struct MockApiIdent` is replaced by a unit stand-in so that the syn::Ident it wraps
+    (a String inside proc-macro2) does not have to be symbolically executed — the harnesses use `mock_api: None`
+    and `Some(MockApiIdent)` as the two abstract values;
+  * the closures passed to `invoke` by the four entry points are copied verbatim (vx-assemble extract-closure).
+set_fallbacks is loop-bounded by its const parameter N; the harnesses instantiate N = 1 and N = 2 (the only
+instantiations in lib.rs) with `#[kani::unwind(3)]` and unwinding assertions on, which is complete for them.
+"""
+import os, re, subprocess, time, shutil, json
+
+ROOT = os.path.dirname(os.path.dirname(os.path.abspath(__file__)))
+REPO = os.environ.get("VX_REPO", "/repo")
+SRC = os.path.join(REPO, "entrait_macros", "src")
+BUILD = os.path.join(ROOT, "build")
+ASSEMBLE = os.path.join(BUILD, "assemble", "debug", "vx-assemble")
+ENV = dict(os.environ, CARGO_NET_OFFLINE="true")
+
+HARNESS = r'''
+#[cfg(kani)]
+mod proofs {
+    use super::*;
+    use super::opt::*;
+
+    fn any_opt() -> Option<SpanOpt<bool>> {
+        if kani::any() { Some(SpanOpt(kani::any(), proc_macro2::Span::call_site())) } else { None }
+    }
+    fn val(o: &Option<SpanOpt<bool>>) -> Option<bool> { o.map(|x| x.0) }
+
+    /// contract of set_fallbacks: Some(x) stays Some(x); None becomes Some(true); nothing else
+    #[kani::proof]
+    #[kani::unwind(3)]
+    fn set_fallbacks_1() {
+        let mut a = any_opt();
+        let a0 = val(&a);
+        set_fallbacks([&mut a]);
+        assert!(val(&a) == Some(a0.unwrap_or(true)));
+    }
+
+    #[kani::proof]
+    #[kani::unwind(3)]
+    fn set_fallbacks_2() {
+        let mut a = any_opt();
+        let mut b = any_opt();
+        let (a0, b0) = (val(&a), val(&b));
+        set_fallbacks([&mut a, &mut b]);
+        assert!(val(&a) == Some(a0.unwrap_or(true)));
+        assert!(val(&b) == Some(b0.unwrap_or(true)));
+    }
+
+    fn any_opts() -> Opts {
+        Opts {
+            default_span: proc_macro2::Span::call_site(),
+            no_deps: any_opt(),
+            debug: any_opt(),
+            export: any_opt(),
+            future_send: if kani::any() { Some(SpanOpt(FutureSend(kani::any()), proc_macro2::Span::call_site())) } else { None },
+            mock_api: if kani::any() { Some(MockApiIdent) } else { None },
+            unimock: any_opt(),
+            mockall: any_opt(),
+        }
+    }
+    struct Snap { no_deps: Option<bool>, debug: Option<bool>, export: Option<bool>, fs: Option<bool>, api: bool, unimock: Option<bool>, mockall: Option<bool> }
+    fn snap(o: &Opts) -> Snap {
+        Snap { no_deps: val(&o.no_deps), debug: val(&o.debug), export: val(&o.export), fs: o.future_send.map(|x| (x.0).0), api: o.mock_api.is_some(), unimock: val(&o.unimock), mockall: val(&o.mockall) }
+    }
+    /// frame + effect of an entry point's option modifier: `export` / `unimock` get the fallback `true`
+    /// iff the variant says so, explicit values win, every other option is untouched
+    fn check_modifier(f: impl FnOnce(&mut Opts), sets_export: bool, sets_unimock: bool) {
+        let mut o = any_opts();
+        let s0 = snap(&o);
+        f(&mut o);
+        let s1 = snap(&o);
+        assert!(s1.no_deps == s0.no_deps && s1.debug == s0.debug && s1.fs == s0.fs && s1.api == s0.api && s1.mockall == s0.mockall);
+        assert!(s1.export == if sets_export { Some(s0.export.unwrap_or(true)) } else { s0.export });
+        assert!(s1.unimock == if sets_unimock { Some(s0.unimock.unwrap_or(true)) } else { s0.unimock });
+    }
+    #[kani::proof]
+    #[kani::unwind(3)]
+    fn modifier_entrait() { check_modifier(@CLOSURE_entrait@, false, false); }
+    #[kani::proof]
+    #[kani::unwind(3)]
+    fn modifier_entrait_export() { check_modifier(@CLOSURE_entrait_export@, true, false); }
+    #[kani::proof]
+    #[kani::unwind(3)]
+    fn modifier_entrait_unimock() { check_modifier(@CLOSURE_entrait_unimock@, false, true); }
+    #[kani::proof]
+    #[kani::unwind(3)]
+    fn modifier_entrait_export_unimock() { check_modifier(@CLOSURE_entrait_export_unimock@, true, true); }
+}
+'''
+
+ALL = ["set_fallbacks_1", "set_fallbacks_2", "modifier_entrait", "modifier_entrait_export", "modifier_entrait_unimock", "modifier_entrait_export_unimock"]
+
+
+def extract(file, item):
+    p = subprocess.run([ASSEMBLE, "extract", "--file", os.path.join(SRC, file), "--item", item], stdout=subprocess.PIPE, stderr=subprocess.PIPE, text=True)
+    if p.returncode != 0:
+        raise RuntimeError("extract %s `%s`: %s" % (file, item, p.stderr.strip()))
+    return p.stdout
+
+
+def extract_closure(fn):
+    p = subprocess.run([ASSEMBLE, "extract-closure", "--file", os.path.join(SRC, "lib.rs"), "--fn", fn], stdout=subprocess.PIPE, stderr=subprocess.PIPE, text=True)
+    if p.returncode != 0:
+        raise RuntimeError("extract-closure %s: %s" % (fn, p.stderr.strip()))
+    return p.stdout
+
+
+def generate(dest):
+    if os.path.isdir(os.path.join(dest, "src")):
+        shutil.rmtree(os.path.join(dest, "src"))
+    os.makedirs(os.path.join(dest, "src"), exist_ok=True)
+    open(os.path.join(dest, "Cargo.toml"), "w").write('''[package]
+name = "vx-kani"
+version = "0.0.0"
+edition = "2021"
+
+[workspace]
+
+[dependencies]
+proc-macro2 = "=1.0.107"
+
+[lints.rust]
+unexpected_cfgs = { level = "allow" }
+''')
+    lock = os.path.join(ROOT, "kani", "Cargo.lock")
+    if os.path.exists(lock):
+        shutil.copy(lock, dest)
+    lib = "#![allow(dead_code, unused)]\n"
+    lib += "// ---- extracted verbatim from entrait_macros/src/lib.rs\n" + extract("lib.rs", "fn set_fallbacks") + "\n"
+    lib += "mod opt {\n    use proc_macro2::Span;\n    // stand-in for `pub struct MockApiIdent(pub syn::Ident);` (see vxlib/e3.py)\n    pub struct MockApiIdent;\n"
+    for it in ("struct Opts", "struct SpanOpt", "impl SpanOpt", "struct FutureSend"):
+        lib += "// ---- extracted verbatim from entrait_macros/src/opt.rs: %s\n" % it + extract("opt.rs", it) + "\n"
+    lib += "}\nuse opt::Opts;\n"
+    h = HARNESS
+    for fn in ("entrait", "entrait_export", "entrait_unimock", "entrait_export_unimock"):
+        h = h.replace("@CLOSURE_%s@" % fn, extract_closure(fn))
+    lib += h
+    open(os.path.join(dest, "src", "lib.rs"), "w").write(lib)
+
+
+def run_kani(dest, harness, timeout=900):
+    t0 = time.time()
+    try:
+        p = subprocess.run(["cargo", "kani", "--harness", "proofs::" + harness, "--exact"], cwd=dest, env=dict(ENV, CARGO_TARGET_DIR=os.path.join(BUILD, "kani-target")),
+                           stdout=subprocess.PIPE, stderr=subprocess.STDOUT, text=True, timeout=timeout)
+        out = p.stdout
+    except subprocess.TimeoutExpired as e:
+        return {"name": harness, "status": "TIMEOUT", "detail": "kani timed out", "seconds": time.time() - t0}
+    dt = time.time() - t0
+    m = re.search(r"VERIFICATION:- (\w+)", out)
+    status = m.group(1) if m else "ERROR"
+    checks = None
+    mm = re.search(r"\*\* (\d+) of (\d+) failed", out)
+    if mm:
+        checks = int(mm.group(2))
+    n_assert = len(re.findall(r"- Status: SUCCESS\n\s+- Description: \"assertion failed:", out))
+    failed = re.findall(r"Check \d+: ([^\n]*)\n\s+- Status: FAILURE\n\s+- Description: \"([^\"]*)\"", out)
+    detail = "; ".join("%s: %s" % f for f in failed[:5]) if failed else out[-800:]
+    return {"name": harness, "status": status, "checks": n_assert if status == "SUCCESSFUL" else max(n_assert, 1), "checks_total_cbmc": checks, "seconds": round(dt, 1), "detail": detail,
+            "bound": "N in {1,2}: unwind 3 with unwinding assertions (complete for these instantiations)",
+            "counterexample": None}
 
 
 def setup(log):
-    return 0
+    log("vx setup: kani harness (warm build)")
+    dest = os.path.join(BUILD, "kani")
+    try:
+        generate(dest)
+    except Exception as e:
+        log("   kani harness generation failed: %s" % e)
+        return 2
+    r = run_kani(dest, "set_fallbacks_1")
+    lk = os.path.join(dest, "Cargo.lock")
+    os.makedirs(os.path.join(ROOT, "kani"), exist_ok=True)
+    if os.path.exists(lk) and not os.path.exists(os.path.join(ROOT, "kani", "Cargo.lock")):
+        shutil.copy(lk, os.path.join(ROOT, "kani", "Cargo.lock"))
+    log("   set_fallbacks_1: %s (%.0fs)" % (r["status"], r["seconds"]))
+    return 0 if r["status"] == "SUCCESSFUL" else 2
 
 
 def run(names, tier, log):
-    return {"harnesses": []}
+    dest = os.path.join(BUILD, "kani")
+    try:
+        generate(dest)
+    except Exception as e:
+        return {"harnesses": [{"name": n, "status": "LOST-ANCHOR", "detail": str(e)} for n in names]}
+    from concurrent.futures import ThreadPoolExecutor
+    # cargo kani serialises on the target dir lock for the build; the CBMC runs are short
+    # build once (serialised by cargo's lock anyway), then run the CBMC parts in parallel
+    first = run_kani(dest, names[0])
+    with ThreadPoolExecutor(max_workers=6) as ex:
+        rest = list(ex.map(lambda n: run_kani(dest, n), names[1:]))
+    return {"harnesses": [first] + rest}
